@@ -373,7 +373,48 @@ func checkJSON(cx *lib.Ctx, r *lib.Rand, src string, s evalgen.Scope, node *lib.
 // bodies
 
 func decodeEvaluator(b *evalgen.BodyCase, expand bool) evaluator {
-	spec := evalgen.BuildSpec(b.Items)
+	return decodeEvaluatorSpec(b, expand, evalgen.BuildSpec(b.Items))
+}
+
+// nestSameBody wraps every entry of the flat object spec in one or two levels of specs that decode from the
+// *same* body (tuple, nested object, validation wrapper): what is needed from the scope is unchanged, but the
+// variable-needing specs now sit two or three levels below the root.
+func nestSameBody(r *lib.Rand, spec hcldec.Spec) hcldec.Spec {
+	o, ok := spec.(hcldec.ObjectSpec)
+	if !ok {
+		return spec
+	}
+	pass := func(cty.Value) hcl.Diagnostics { return nil }
+	wrap := func(x hcldec.Spec) hcldec.Spec {
+		switch r.Intn(4) {
+		case 0:
+			return hcldec.TupleSpec{x}
+		case 1:
+			return hcldec.ObjectSpec{"w": x}
+		case 2:
+			return &hcldec.ValidateSpec{Wrapped: hcldec.ObjectSpec{"w": x}, Func: pass}
+		default:
+			return hcldec.TupleSpec{hcldec.ObjectSpec{"w": x}}
+		}
+	}
+	out := hcldec.ObjectSpec{}
+	for _, k := range func() []string {
+		var ks []string
+		for k := range o {
+			ks = append(ks, k)
+		}
+		sort.Strings(ks)
+		return ks
+	}() {
+		out[k] = wrap(o[k])
+	}
+	if r.Chance(1, 2) {
+		return &hcldec.ValidateSpec{Wrapped: out, Func: pass}
+	}
+	return out
+}
+
+func decodeEvaluatorSpec(b *evalgen.BodyCase, expand bool, spec hcldec.Spec) evaluator {
 	return func(s evalgen.Scope) (out string) {
 		defer func() {
 			if r := recover(); r != nil {
@@ -444,6 +485,9 @@ func checkBody(cx *lib.Ctx, r *lib.Rand, b *evalgen.BodyCase, mode string) {
 	switch mode {
 	case "hcldec":
 		probes = append(probes, probe{"hcldec.Variables", hcldec.Variables(b.Body, spec), decodeEvaluator(b, false), evalgen.BodyFreeRoots(b.Tree, false), "hcldec-variables"})
+	case "hcldec-nested":
+		nested := nestSameBody(r.Fork(), spec)
+		probes = append(probes, probe{"hcldec.Variables (same-body specs nested)", hcldec.Variables(b.Body, nested), decodeEvaluatorSpec(b, false, nested), evalgen.BodyFreeRoots(b.Tree, false), "hcldec-variables-nested"})
 	default:
 		probes = append(probes,
 			probe{"dynblock.VariablesHCLDec", dynblock.VariablesHCLDec(b.Body, spec), decodeEvaluator(b, true), evalgen.BodyFreeRoots(b.Tree, false), "dynblock-variables"},
@@ -717,6 +761,10 @@ func run(cx *lib.Ctx) {
 		}
 		res.Count("hcldec:cases")
 		checkBody(cx, r, b, "hcldec")
+		if i%2 == 0 {
+			res.Count("hcldec-nested:cases")
+			checkBody(cx, r, b, "hcldec-nested")
+		}
 	}
 	for i := 0; i < nb; i++ {
 		r := R.Fork()
